@@ -64,7 +64,8 @@ Definition of_r (t : tree) (n : N) : option rhs :=
                  | [] => Some []
                  | x :: u' => match of_e x j, gol u' (j + nsize x) with Some a, Some b => Some (a :: b) | _, _ => None end
                  end) args (n + 3) with
-        | Some args' => Some (RCall n false false false (XName (n + 1) f) args')
+        | Some args' => if N.eqb f id_range && Nat.eqb (length args') 3 then None     (* range with a step: outside the fragment *)
+                        else Some (RCall n false false false (XName (n + 1) f) args')
         | None => None
         end
       else option_map RExp (of_e t n)
@@ -319,6 +320,17 @@ Definition call_result (x : option fexc) : rr :=
 (* a call: callee (node of its def), argument values, globals, saved value, stream so far -> result, saved value, stream of the call *)
 Definition callT : Type := N -> list val -> env -> val -> list entry -> rr * val * list entry.
 
+(* the one builtin of the fragment: range(stop) / range(start, stop) on ints and bools *)
+Definition int_like (v : val) : option Z := match v with VInt z => Some z | VBool b => Some (if b then 1 else 0)%Z | _ => None end.
+Definition builtin_call (k : N) (vs : list val) : res val :=
+  if N.eqb k 0 then
+    match vs with
+    | [v] => match int_like v with Some z => Ok (VRange 0 z) | None => Err ETypeError end
+    | [v; w] => match int_like v, int_like w with Some a, Some b => Ok (VRange a b) | _, _ => Err ETypeError end
+    | _ => Err ETypeError
+    end
+  else Err ETypeError.
+
 Section Sem.
 Variable binop : N -> val -> val -> res val.
 Variable cmpop : N -> val -> val -> res bool.
@@ -365,6 +377,7 @@ Fixpoint eval_r (lk glob : env) (r : rhs) (saved : val) (pre : list entry) {stru
           | (Ok vs, la) =>
               match vf with
               | VFun f => let '(q, sv, lc) := call f vs glob saved (pre ++ lf ++ lb ++ la) in (q, sv, lf ++ lb ++ la ++ lc)
+              | VBuiltin k => (rr_of (builtin_call k vs), saved, lf ++ lb ++ la)
               | _ => (RErr (FX ETypeError), saved, lf ++ lb ++ la)
               end
           end
@@ -510,6 +523,8 @@ Definition ref_r (quiet : bool) (lk glob : env) (r : rhs) (pre : list entry) : r
               match vf with
               | VFun f => let '(q, lc) := callr f vs glob (pre ++ l1 ++ la) in
                           (q, l1 ++ la ++ lc ++ fsay quiet (emitted_r E_after_call cn q ++ emitted_r E_after_load_complex_symbol cn q))
+              | VBuiltin k => let q := rr_of (builtin_call k vs) in
+                              (q, l1 ++ la ++ fsay quiet (emitted_r E_after_call cn q ++ emitted_r E_after_load_complex_symbol cn q))
               | _ => (RErr (FX ETypeError), l1 ++ la)
               end
           end
